@@ -204,7 +204,7 @@ def rand_cmd(rng, wellformed=True):
         elif how == 6:
             toks[0] = toks[0].lower() if rng.chance(1, 2) else toks[0] + "X"
         else:
-            toks.append(str(10 ** rng.choice([10, 15, 17])))
+            toks.append(str(10 ** rng.choice([10, 12, 14])))
     return list(("CMD " + " ".join(toks) + "\0").encode("utf-8"))
 
 
